@@ -339,10 +339,10 @@ def run(ctx):
         return
     if not ctx.go_build():
         return
-    rotate_stream(ctx, ctx.n(10000, 200000))
-    ctx.diff_stream("cache", ctx.n(2000, 40000), oracle=oracle)
-    ctx.diff_stream("conc", ctx.n(120, 2500), oracle=oracle)
-    ctx.diff_stream("citadel", ctx.n(200, 6000), oracle=oracle)
+    rotate_stream(ctx, ctx.n(8000, 200000))
+    ctx.diff_stream("cache", ctx.n(1600, 40000), oracle=oracle)
+    ctx.diff_stream("conc", ctx.n(100, 2500), oracle=oracle)
+    ctx.diff_stream("citadel", ctx.n(150, 6000), oracle=oracle)
     ctx.diff_stream("file", ctx.n(40, 2000), oracle=oracle)
     ctx.diff_stream("sds", ctx.n(32, 1500), oracle=oracle)
     ctx.diff_stream("timer", ctx.n(8, 300), oracle=timer_oracle)
@@ -403,11 +403,11 @@ MANIFEST = {
                    "pair_consistent is structural in the model; that the REAL key and leaf belong together rests on the oracle's public-key "
                    "comparison. Both models are tied to /repo on every run by differential execution of the real code."),
     "level_note": ("Trusted: Lean kernel + {propext, Classical.choice, Quot.sound}; the hand-written models (tied by differential testing, quick "
-                   "tier: real rotateTime 3x on 10^4 random certificates judged by the model's interval, float tolerance |L|/2^50 + 2 ns; a real "
+                   "tier: real rotateTime 3x on 8000 random certificates judged by the model's interval, float tolerance |L|/2^50 + 2 ns; a real "
                    "SecretManagerClient with a signing fake CA, recording queue (notes the cache state at PushDelayed) and handler (notes the "
-                   "cache / bundle / root state at every callback) on 2000 random scripts with ratio and jitter over [0,1]^2; 120 concurrent "
+                   "cache / bundle / root state at every callback) on 1600 random scripts with ratio and jitter over [0,1]^2; 100 concurrent "
                    "runs + 3 uncontrolled stress runs (GenerateSecret || rotation tasks, some run inside PushDelayed || bundle updates, "
-                   "failing CA, changing roots) asserting the observables of the invariants; OutputKeyCertToDir under concurrency; 200 scripts "
+                   "failing CA, changing roots) asserting the observables of the invariants; OutputKeyCertToDir under concurrency; 150 scripts "
                    "through the real CitadelClient and an in-process gRPC CA; 40 scripts on file-mounted certificates with real fsnotify "
                    "events; 32 scripts through the real sds.Server with gRPC subscribers; the real delayed queue: 8 timed scenarios, a stress "
                    "in two shapes, and 1500 zero-delay rotations on the queue NewSecretManagerClient creates itself); the verif-tagged accessor "
